@@ -121,6 +121,11 @@ def cases(seed=0, thorough=False):
         add("def mk_%d():\n    def tag_%d(e):\n        return e.mi_tag(\"\"\"run\n%s\"\"\") + %s\n    return tag_%d\nr = ds.Select(mk_%d())" % (a, a, cont, body(a, "e"), a, a),
             # {S}: the string constant is read from the passed function's code object (the enclosing context indents the file text)
             ["lambda e: e.mi_tag({S}) + %s" % body(a, "e")], False, "O7 one-line def with a multi-line string, defined at an indented level")
+    # a user's own class with a method called Select that runs the function it is given at once; the function holds the real call, with the same parameter name
+    a = nb()
+    add("class Holder_%d:\n    def __init__(self, s):\n        self.s = s\n\n    def Select(self, fn):\n        return fn(self.s)\nr = Holder_%d(ds).Select(lambda e: e.Select(lambda e: %s))" % (a, a, body(a, "e")),
+        ["lambda e: %s" % body(a, "e")], False, "O8 real call inside a lambda that a same-named method of a user class runs")
+    out[-1]["known_id"] = "C03-enclosing-lambda-of-same-named-user-method"
     # ================= layouts that are not documented: identical or an exception, never another lambda
     a, b = nb(), nb()
     add("r = ds.Select(lambda x: {A}).Select(lambda x: {B})".format(A=body(a, "x"), B=body(b, "x")),
